@@ -213,11 +213,11 @@ class Tr:
 
 
 # ---------------------------------------------------------------------------------------------
-# ManyToMany.add / remove / __delitem__: statements on self.data / self.inv.data (dicts of set objects)
+# ManyToMany.add / remove / __delitem__ / replace: statements on self.data / self.inv.data (dicts of set objects)
 # ---------------------------------------------------------------------------------------------
-M_METHODS = ["add", "remove", "__delitem__"]
-M_PARAMS = {"add": ["key", "val"], "remove": ["key", "val"], "__delitem__": ["key"]}
-M_COQ = {"add": "srcm_add", "remove": "srcm_remove", "__delitem__": "srcm_delitem"}
+M_METHODS = ["add", "remove", "__delitem__", "replace"]
+M_PARAMS = {"add": ["key", "val"], "remove": ["key", "val"], "__delitem__": ["key"], "replace": ["key", "newkey"]}
+M_COQ = {"add": "srcm_add", "remove": "srcm_remove", "__delitem__": "srcm_delitem", "replace": "srcm_replace"}
 
 
 class TrM:
@@ -232,9 +232,21 @@ class TrM:
         raise Unsupported("dict operand %s" % ast.dump(e))
 
     def name(self, e, env):
-        if isinstance(e, ast.Name) and e.id in env:
+        if isinstance(e, ast.Name) and isinstance(env.get(e.id), str):
             return env[e.id]
         raise Unsupported("operand %s" % ast.dump(e))
+
+    def setvar(self, e, env):
+        """a local bound to a popped set value -> its Gallina list variable"""
+        if isinstance(e, ast.Name) and isinstance(env.get(e.id), tuple) and env[e.id][0] == "set":
+            return env[e.id][1]
+        raise Unsupported("set operand %s" % ast.dump(e))
+
+    def set_target(self, e, env):
+        """the set object a .add/.remove call mutates: D[k] or a local alias of it -> (sel, k)"""
+        if isinstance(e, ast.Name) and isinstance(env.get(e.id), tuple) and env[e.id][0] == "alias":
+            return env[e.id][1], env[e.id][2]
+        return self.entry(e, env)
 
     def entry(self, e, env):
         """D[k] -> (sel, k)"""
@@ -248,6 +260,37 @@ class TrM:
         s, rest = stmts[0], stmts[1:]
         if isinstance(s, ast.Expr) and isinstance(s.value, ast.Constant) and isinstance(s.value.value, str):
             return self.block(rest, env)
+        if isinstance(s, ast.Return) and s.value is None:
+            return "Ok (VNone, self)"
+        if isinstance(s, ast.Assign) and len(s.targets) == 1 and isinstance(s.targets[0], ast.Name):
+            n, v = s.targets[0].id, s.value
+            if n in env:
+                raise Unsupported("re-binding of %s" % n)
+            if isinstance(v, ast.Call) and isinstance(v.func, ast.Attribute) and v.func.attr == "pop" and len(v.args) == 1 \
+                    and not v.keywords:                               # fwdset = D.pop(k)
+                d = self.msel(v.func.value)
+                k = self.name(v.args[0], env)
+                env2 = dict(env)
+                env2[n] = ("set", "l_" + n)
+                return "bind (pm_pop self %s %s) (fun r => let '(l_%s, self) := r in\n%s)" % (d, k, n, self.block(rest, env2))
+            if isinstance(v, ast.Subscript):                           # revset = D[k] : a local alias of the stored set
+                d, k = self.entry(v, env)
+                env2 = dict(env)
+                env2[n] = ("alias", d, k)
+                return "bind (pm_lookup self %s %s) (fun _ =>\n%s)" % (d, k, self.block(rest, env2))
+            raise Unsupported("assignment %s" % ast.dump(s))
+        if isinstance(s, ast.Expr) and isinstance(s.value, ast.Call) and isinstance(s.value.func, ast.Attribute) \
+                and s.value.func.attr == "update" and len(s.value.args) == 1 and not s.value.keywords:
+            # D.setdefault(k, set()).update(fwdset)
+            c = s.value.func.value
+            if isinstance(c, ast.Call) and isinstance(c.func, ast.Attribute) and c.func.attr == "setdefault" and \
+                    len(c.args) == 2 and not c.keywords and isinstance(c.args[1], ast.Call) and \
+                    isinstance(c.args[1].func, ast.Name) and c.args[1].func.id == "set" and not c.args[1].args:
+                d = self.msel(c.func.value)
+                k = self.name(c.args[0], env)
+                l = self.setvar(s.value.args[0], env)
+                return "let self := pm_setdefault_update self %s %s %s in\n%s" % (d, k, l, self.block(rest, env))
+            raise Unsupported("update call %s" % ast.dump(s.value))
         if isinstance(s, ast.If) and not s.orelse:
             te = s.test
             if isinstance(te, ast.Compare) and len(te.ops) == 1 and isinstance(te.ops[0], ast.NotIn):
@@ -268,22 +311,30 @@ class TrM:
             raise Unsupported("assignment %s" % ast.dump(s))
         if isinstance(s, ast.Expr) and isinstance(s.value, ast.Call) and isinstance(s.value.func, ast.Attribute) \
                 and s.value.func.attr in ("add", "remove") and len(s.value.args) == 1 and not s.value.keywords:
-            d, k = self.entry(s.value.func.value, env)
+            d, k = self.set_target(s.value.func.value, env)
             a = self.name(s.value.args[0], env)
             prim = "pm_set_add" if s.value.func.attr == "add" else "pm_set_remove"
             return "bind (%s self %s %s %s) (fun self =>\n%s)" % (prim, d, k, a, self.block(rest, env))
         if isinstance(s, ast.For) and not s.orelse and isinstance(s.target, ast.Name):
             # for v in D.pop(k): body      (body without break / return / continue)
             it = s.iter
-            if not (isinstance(it, ast.Call) and isinstance(it.func, ast.Attribute) and it.func.attr == "pop"
-                    and len(it.args) == 1 and not it.keywords):
-                raise Unsupported("loop iterable %s" % ast.dump(it))
             for n in ast.walk(ast.Module(body=s.body, type_ignores=[])):
                 if isinstance(n, (ast.Break, ast.Return, ast.Continue, ast.Yield)):
                     raise Unsupported("control flow inside the loop body")
+            v = s.target.id
+            if isinstance(it, ast.Name):                               # for v in fwdset  (a popped set held in a local)
+                l = self.setvar(it, env)
+                if v in env:
+                    raise Unsupported("loop variable shadows %s" % v)
+                env2 = dict(env)
+                env2[v] = "p_" + v
+                return "bind (pm_for %s (fun self p_%s =>\n%s) self) (fun self =>\n%s)" % (
+                    l, v, self.block(list(s.body), env2), self.block(rest, env))
+            if not (isinstance(it, ast.Call) and isinstance(it.func, ast.Attribute) and it.func.attr == "pop"
+                    and len(it.args) == 1 and not it.keywords):
+                raise Unsupported("loop iterable %s" % ast.dump(it))
             d = self.msel(it.func.value)
             k = self.name(it.args[0], env)
-            v = s.target.id
             if v in env:
                 raise Unsupported("loop variable shadows %s" % v)
             env2 = dict(env)
@@ -351,6 +402,6 @@ def generate(repo):
             raise Unsupported("OneToOne.%s is not a plain method" % m)
         out.append(Tr(done).method(node, m))
         done.add(m)
-    out.append("(* class ManyToMany: add / remove / __delitem__ *)")
+    out.append("(* class ManyToMany: add / remove / __delitem__ / replace *)")
     out += generate_m2m(tree)
     return "\n".join(out)
